@@ -132,6 +132,37 @@ def _in_child(steps, sources):
     return payload
 
 
+_HEADER = None
+
+
+def failing_unit(src, errtext):
+    """Name of the symbol table of the top-level program unit that was open at the error line
+    ('fparser2:main_program' when the line is outside any unit that has a header)."""
+    import re
+    global _HEADER
+    if _HEADER is None:
+        _HEADER = re.compile(r"^\s*(?:[a-z0-9_=*() ,]*?\s)?(module|program|subroutine|function|submodule\s*\([^)]*\)|block\s*data)"
+                             r"\s+([a-z_]\w*)", re.I)
+    m = re.match(r"at line (\d+)", errtext or "")
+    errline = int(m.group(1)) if m else 10 ** 9
+    stack = []
+    for i, line in enumerate(src.split("\n"), 1):
+        if i > errline:
+            break
+        low = line.strip().lower()
+        if re.match(r"end\s*(subroutine|function|module|program|submodule|block\s*data)?\b(\s+\w+)?\s*$", low):
+            if i < errline and stack:
+                stack.pop()
+            continue
+        if low.startswith("end") or low.startswith("module procedure"):
+            continue
+        h = _HEADER.match(line)
+        if h and "=" not in line.split(h.group(1))[0]:
+            if i < errline or True:
+                stack.append(h.group(2).lower())
+    return stack[0] if stack else "fparser2:main_program"
+
+
 _fresh = {}
 
 
@@ -183,8 +214,12 @@ def evaluate(case):
                 if o["kind"] == "exit":
                     tag = ":exit"
                 else:
-                    tag = (":removed-preexisting-same-name" if (before - after) else "") + (
-                        ":left-tables-of-earlier-units" if (after - before) else "")
+                    tag = ":removed-preexisting-same-name" if (before - after) else ""
+                    if after - before:
+                        own = failing_unit(sources[op], o.get("text", ""))
+                        # the recorded finding is about tables of units matched BEFORE the failing one; the
+                        # failing unit's own table staying behind is a different (unrecorded) violation
+                        tag += ":own-table-left" if own in (after - before) else ":left-tables-of-earlier-units"
                 failures.append(Result(False, "tables-changed-by-failed-parse%s" % tag, nontrivial, labels,
                                        {"step": i, "before": o["tables_before"], "after": o["tables_after"],
                                         "source": sources[op], "steps": steps}))
@@ -198,8 +233,8 @@ def evaluate(case):
         if o["kind"] == "tree":
             clean = False
     if failures:
-        other = [f for f in failures if not f.bucket.startswith("tables-changed-by-failed-parse:")
-                 and not f.bucket.endswith(":exit")]
+        other = [f for f in failures if f.bucket.endswith(":own-table-left") or
+                 (not f.bucket.startswith("tables-changed-by-failed-parse:") and not f.bucket.endswith(":exit"))]
         return (other or failures)[0]
     return Result(True, None, nontrivial, labels)
 
